@@ -229,7 +229,14 @@ pub fn start_node(role: &str, config: &Value, dir: &Path, tag: &str, workers: us
             c
         }
         None => {
-            let mut c = Command::new(node_bin());
+            // diagnosis aid: OSV_STRACE=<role> runs that node under strace (network syscalls) -> <dir>/<tag>-<role>.strace
+            let mut c = if std::env::var("OSV_STRACE").ok().as_deref() == Some(role) {
+                let mut c = Command::new("strace");
+                c.arg("-f").arg("-tt").arg("-o").arg(dir.join(format!("{tag}-{role}.strace"))).arg("-e").arg("trace=close,shutdown,connect,accept4,sendto,recvfrom,read,write,writev,setsockopt").arg("-s").arg("0").arg(node_bin());
+                c
+            } else {
+                Command::new(node_bin())
+            };
             c.arg(&cfg_path).arg(log_level).arg(role).arg(workers.to_string()).arg(&report);
             if let Some(n) = nofile {
                 c.arg(n.to_string());
